@@ -199,7 +199,7 @@ CLAIMS = {
 }
 
 TECHNIQUE = ("Lean 4 machine-checked proof over a model of the code; tie = translators (funfit.py, dataset tables, vector "
-             "arithmetic, the loops of the window strategies regenerated into Lean and proved equal to the model) + "
+             "arithmetic, the loops of the window strategies, the two-pointer scans regenerated into Lean and proved equal to the model) + "
              "differential correspondence of the native model driver with /repo on generated inputs, memory layouts, "
              "object histories, thread schedules and interpreter settings")
 
@@ -219,6 +219,10 @@ def main():
         if pid not in CLAIMS or pid not in BUILT:
             continue
         ref, text, note = CLAIMS[pid]
+        if pid in ("C01", "C10", "C11"):
+            text += (" The three two-pointer scans and their dispatcher are regenerated from sorted_array_utils.py's AST as "
+                     "small-step state machines by translator T5 and proved equal to the model for all lists on every run "
+                     "(TWV.Tie.Search).")
         if pid in ("C04", "C05", "C06", "C07"):
             text += (" The loops of the four window strategies are also modelled as loops (TWV.Model.RfaImp: the array z "
                      "overwritten in program order), proved equal to the closed form the theorems are about "
